@@ -280,6 +280,35 @@ class HostileInjector(Oracle):
     # ------------------------------------------------------------------ hooks
     last_genuine = b""
 
+    def gap_flood(self, ep, dgram):
+        """A peer that holds the keys sends many tiny packets whose numbers leave gaps: every packet adds one
+        range to what the receiver has to acknowledge."""
+        ch = self.ch
+        sender = ep.peer
+        keys = self.forger.keys(sender, "1rtt") if sender.conn is not None else None
+        if keys is None:
+            return False
+        n = (30, 120, 300, 700, 1500)[ch.choose(5)]
+        gap = (2, 2, 3, 17)[ch.choose(4)]
+        payload = (b"\x01", b"\x00" * 3, b"\x01\x00")[ch.choose(3)]  # PING / PADDING
+        every = (1, 8, 64, 10 ** 6)[ch.choose(4)]
+        self.count("gap-flood")
+        self.sim.k.trace("hostile", ep.name, "gap-flood", n)
+        for i in range(n):
+            pn = self.forger.next_pn(sender, "app", gap)
+            try:
+                pkt = self.forger.build(sender, "1rtt", payload, pn=pn, pn_len=4, keys=keys)
+            except Exception:
+                return True
+            d = self.forger.inject(ep, pkt, src=dgram.src, tag="hostile")
+            ep.api("receive_datagram", d.data, d.src, ep.now())
+            if (i + 1) % every == 0:
+                ep.pump()
+            if ep.terminated or ep.broken:
+                return True
+        ep.pump()
+        return True
+
     def on_datagram_delivered(self, ep, dgram, copy_index):
         if self.busy or ep.conn is None or ep.terminated or ep.broken:
             return
@@ -288,6 +317,14 @@ class HostileInjector(Oracle):
         if self.sim.k.now >= self.sim.cfg["t_fair"] or not self.ch.chance(self.rate):
             self.last_genuine = dgram.data
             return
+        if self.sim.profile.get("gap_flood_p") and self.ch.chance(self.sim.profile["gap_flood_p"]):
+            self.busy = True
+            try:
+                if self.gap_flood(ep, dgram):
+                    return
+            finally:
+                self.busy = False
+                self.last_genuine = dgram.data
         self.busy = True
         self.cur_meta = dgram.meta if dgram.sender in ("client", "server") else None
         try:
